@@ -204,6 +204,7 @@ def check(run):
     import genlib
     genlib.validate_modifiers(run, n=run.n(60, 600))
     genlib.validate_register_each_other(run, n=run.n(12, 80))
+    genlib.validate_trans_modifier(run, n=run.n(60, 600))
     rng = run.rng
     # ---- (A) parse trees ---------------------------------------------------------------------------------------------------
     defs = [gen_multi(rng, rng.randint(0, 3)) for _ in range(run.n(250, 5000))]
